@@ -51,6 +51,9 @@ var gfGroups = map[string]struct{ file string }{
 	"gorns":     {"GoRns.v"},     // rns price list
 	"gogauge":   {"GoGauge.v"},   // payment gauges: what a reward block releases
 	"goreward":  {"GoReward.v"},  // the payout of a reward block
+	"gocollat":  {"GoCollat.v"},  // provider registration and shutdown (collateral)
+	"gornsown":  {"GoRnsOwn.v"},  // rns: the handlers that change a name's owner or move bid escrow
+	"gofiletree": {"GoFiletree.v"}, // filetree: who may delete, hand over, post and change access lists
 }
 
 func init() {
@@ -81,6 +84,9 @@ type gfFunc struct {
 	// literal passed to that call (a bare `return` ends the unit), "range:<expr>" into the body of the range
 	// statement over that expression (`continue` ends the unit).  Variables of the enclosing code are reads.
 	Path []string
+	// RespField: the function returns a response record next to its error; this boolean field of the returned
+	// `&T{...}` literal becomes the first component of the translated result (false when the field is absent)
+	RespField string
 	// StmtEvents: statements (by prefix of their source text) that are not translated but recorded as an event,
 	// e.g. an inner loop whose body is a unit of its own
 	StmtEvents []gfEffect
@@ -125,6 +131,141 @@ var gfFuncs = []gfFunc{
 		ReadStmts: []string{`var gs int64`, `gasMeter := ctx.BlockGasMeter()`, `if gasMeter != nil { gs = int64(gasMeter.GasConsumed()) }`,
 			`h := ctx.BlockHeight()`, `r := rand.NewRand()`, `r.Seed(gs + h)`},
 		Effects: []gfEffect{{Match: "proof.ChunkToProve", Tag: "set-challenge", Args: []string{"$rhs"}}}},
+	{Group: "gowindows", Pkg: "x/storage/types", Recv: "UnifiedFile", Name: "SetProven", Coq: "gen_SetProven",
+		Inputs: []gfInput{{"f.FileSize", "size", "Z"}, {"chunkSize", "chunk", "Z"}, {"r.Int63n(pieces)", "draw", "Z"}, {"ctx.BlockHeight()", "h", "Z"}},
+		Effects: []gfEffect{{Match: "proof.LastProven", Tag: "set-last-proven", Args: []string{"$rhs"}}}},
+	{Group: "gowindows", Pkg: "x/storage/types", Recv: "UnifiedFile", Name: "Prove", Coq: "gen_Prove",
+		Inputs: []gfInput{{"f.FileSize", "size", "Z"}, {"chunkSize", "chunk", "Z"}, {"r.Int63n(pieces)", "draw", "Z"}, {"ctx.BlockHeight()", "h", "Z"},
+			{"f.VerifyProof(proofData, proof.ChunkToProve, item)", "verified", "bool"}},
+		StmtEvents: []gfEffect{{Match: "this never matches", Tag: "unused"}}},
+	// ---- x/storage/keeper/msg_server_postproof.go: the whole handler (C01, C17)
+	{Group: "gowindows", Pkg: "x/storage/keeper", Recv: "msgServer", Name: "PostProof", Coq: "gen_PostProof", RespField: "Success",
+		Inputs: []gfInput{{"found", "found", "bool"}, {"len(file.Proofs)", "nproofs", "Z"}, {"file.MaxProofs", "maxp", "Z"},
+			{"getprover_ok", "getprover_ok", "bool"}, {"file.ContainsProver(prover)", "listed", "bool"},
+			{"msg.ToProve", "to_prove", "Z"}, {"proof.ChunkToProve", "challenge", "Z"},
+			{"file.Start", "start", "Z"}, {"file.ProofInterval", "pi", "Z"}, {"ctx.BlockHeight()", "h", "Z"}, {"proof.LastProven", "last", "Z"},
+			{"file.FileSize", "size", "Z"}, {"k.GetParams(ctx).ChunkSize", "chunk", "Z"}, {"r.Int63n(pieces)", "draw", "Z"},
+			{"file.VerifyProof(msg.HashList, proof.ChunkToProve, msg.Item)", "verified", "bool"}},
+		ReadStmts: []string{`ctx := sdk.UnwrapSDKContext(goCtx)`, `f, found := k.GetFile(ctx, msg.Merkle, msg.Owner, msg.Start)`, `file := &f`, `prover := msg.Creator`,
+			`var proof *types.FileProof`, `var err error`, `proof, err = file.GetProver(ctx, k, prover) => err=getprover_ok`},
+		Ignore: append([]string{`^s := fmt\.Sprintf\(`, `^e := fmt\.Errorf\(`, `^e := sdkerrors\.Wrapf\(`, `^ctx\.Logger\(\)\.Debug\(s\)$`, `^proof = &types\.FileProof\{`, `^ctx\.EventManager\(\)\.EmitEvent\(`}, gfLogging...),
+		Effects: []gfEffect{{Match: "file.AddProver", Tag: "add-prover"}, {Match: "k.SetProof", Tag: "set-proof"}}},
+	// ---- x/storage/keeper/msg_server_init_provider.go: collateral locked and returned (C15)
+	{Group: "gocollat", Pkg: "x/storage/keeper", Recv: "msgServer", Name: "InitProvider", Coq: "gen_InitProvider",
+		Inputs: []gfInput{{"found", "found", "bool"}, {"params.CollateralPrice", "price", "Z"}, {"creator_ok", "creator_ok", "bool"},
+			{"account.String() != msg.Creator", "not_canonical", "bool"}, {"ok_lock", "ok_lock", "bool"}},
+		ReadStmts: []string{`ctx := sdk.UnwrapSDKContext(goCtx)`, `_, found := k.GetProviders(ctx, msg.Creator)`, `params := k.GetParams(ctx)`,
+			`account, err := sdk.AccAddressFromBech32(msg.Creator) => err=creator_ok`},
+		Ignore: append([]string{`^collat := types\.Collateral\{`, `^provider := types\.Providers\{`, `^ctx\.EventManager\(\)\.EmitEvent\(`}, gfLogging...),
+		Effects: []gfEffect{{Match: "k.bankKeeper.SendCoinsFromAccountToModule", Tag: "lock-collateral", Args: []string{"coins"}, Fallible: "ok_lock"},
+			{Match: "k.SetCollateral", Tag: "record-collateral", Args: []string{"params.CollateralPrice"}}, {Match: "k.SetProviders", Tag: "set-provider"}}},
+	{Group: "gocollat", Pkg: "x/storage/keeper", Recv: "msgServer", Name: "ShutdownProvider", Coq: "gen_ShutdownProvider",
+		Inputs: []gfInput{{"prov_found", "prov_found", "bool"}, {"coll_found", "coll_found", "bool"}, {"collateral.Amount", "amount", "Z"},
+			{"creator_ok", "creator_ok", "bool"}, {"ok_return", "ok_return", "bool"}},
+		ReadStmts: []string{`ctx := sdk.UnwrapSDKContext(goCtx)`, `_, found := k.GetProviders(ctx, msg.Creator) => found=prov_found`,
+			`collateral, found := k.GetCollateral(ctx, msg.Creator) => found=coll_found`,
+			`account, err := sdk.AccAddressFromBech32(msg.Creator) => err=creator_ok`},
+		Ignore: append([]string{`^ctx\.EventManager\(\)\.EmitEvent\(`}, gfLogging...),
+		Effects: []gfEffect{{Match: "k.bankKeeper.SendCoinsFromModuleToAccount", Tag: "return-collateral", Args: []string{"coins"}, Fallible: "ok_return"},
+			{Match: "k.RemoveCollateral", Tag: "remove-collateral"}, {Match: "k.RemoveProviders", Tag: "remove-provider"}}},
+	// ---- x/rns/keeper: ownership and escrow (C08, C09).  Coins are opaque here: the events say which stored amount moves
+	{Group: "gornsown", Pkg: "x/rns/keeper", Recv: "Keeper", Name: "BuyName", Coq: "gen_BuyName",
+		Inputs: []gfInput{{"sender_ok", "sender_ok", "bool"}, {"found", "listed", "bool"}, {"parse_ok", "parse_ok", "bool"}, {"nfound", "name_found", "bool"},
+			{"ctx.BlockHeight()", "h", "Z"}, {"name.Expires", "expires", "Z"}, {"name.Value == sender", "own_name", "bool"},
+			{"name.Value != sale.Owner", "stale_listing", "bool"}, {"price_ok", "price_ok", "bool"}, {"ok_charge", "ok_charge", "bool"}, {"ok_pay", "ok_pay", "bool"}},
+		ReadStmts: []string{`nm = strings.ToLower(nm)`, `buyer, err := sdk.AccAddressFromBech32(sender) => err=sender_ok`, `sale, found := k.GetForsale(ctx, nm)`,
+			`n, tld, err := GetNameAndTLD(nm) => err=parse_ok`, `name, nfound := k.GetNames(ctx, n, tld)`, `seller, _ := sdk.AccAddressFromBech32(sale.Owner)`,
+			`price, err := sdk.ParseCoinNormalized(sale.Price) => err=price_ok`, `coins := sdk.NewCoins(price)`},
+		Ignore: append([]string{`^name\.Data = "\{\}"$`, `^ctx\.EventManager\(\)\.EmitEvent\(`}, gfLogging...),
+		Effects: []gfEffect{{Match: "k.bankKeeper.SendCoinsFromAccountToModule", Tag: "buyer-pays-listed-price", Fallible: "ok_charge"},
+			{Match: "k.bankKeeper.SendCoinsFromModuleToAccount", Tag: "listed-price-to-listing-owner", Fallible: "ok_pay"},
+			{Match: "k.RemoveForsale", Tag: "remove-listing"}, {Match: "name.Value", Tag: "owner-becomes-buyer"}, {Match: "k.SetNames", Tag: "set-name"}}},
+	{Group: "gornsown", Pkg: "x/rns/keeper", Recv: "Keeper", Name: "AddBid", Coq: "gen_AddBid",
+		Inputs: []gfInput{{"sender_ok", "sender_ok", "bool"}, {"price_ok", "price_ok", "bool"}, {"ok_escrow", "ok_escrow", "bool"}, {"replaced", "replaced", "bool"},
+			{"old_price_ok", "old_price_ok", "bool"}, {"ok_refund", "ok_refund", "bool"}},
+		ReadStmts: []string{`name = strings.ToLower(name)`, `bidder, err := sdk.AccAddressFromBech32(sender) => err=sender_ok`,
+			`price, err := sdk.ParseCoinsNormalized(bid) => err=price_ok`, `index := fmt.Sprintf("%s%s", bidder.String(), name)`, `oldBid, replaced := k.GetBids(ctx, index)`,
+			`oldPrice, err := sdk.ParseCoinsNormalized(oldBid.Price) => err=old_price_ok`},
+		Ignore: append([]string{`^newBid := types\.Bids\{`}, gfLogging...),
+		Effects: []gfEffect{{Match: "k.bankKeeper.SendCoinsFromAccountToModule", Tag: "escrow-new-bid", Fallible: "ok_escrow"},
+			{Match: "k.bankKeeper.SendCoinsFromModuleToAccount", Tag: "refund-replaced-bid", Fallible: "ok_refund"}, {Match: "k.SetBids", Tag: "set-bid"}}},
+	{Group: "gornsown", Pkg: "x/rns/keeper", Recv: "Keeper", Name: "CancelOneBid", Coq: "gen_CancelOneBid",
+		Inputs: []gfInput{{"sender_ok", "sender_ok", "bool"}, {"bidFound", "bid_found", "bool"}, {"price_ok", "price_ok", "bool"}, {"ok_refund", "ok_refund", "bool"}},
+		ReadStmts: []string{`name = strings.ToLower(name)`, `bidder, err := sdk.AccAddressFromBech32(sender) => err=sender_ok`,
+			`bid, bidFound := k.GetBids(ctx, fmt.Sprintf("%s%s", sender, name))`, `price, err := sdk.ParseCoinsNormalized(bid.Price) => err=price_ok`},
+		Ignore: append([]string{`^ctx\.EventManager\(\)\.EmitEvent\(`}, gfLogging...),
+		Effects: []gfEffect{{Match: "k.bankKeeper.SendCoinsFromModuleToAccount", Tag: "refund-bid-to-sender", Fallible: "ok_refund"}, {Match: "k.RemoveBids", Tag: "remove-bid"}}},
+	{Group: "gornsown", Pkg: "x/rns/keeper", Recv: "Keeper", Name: "AcceptOneBid", Coq: "gen_AcceptOneBid",
+		Inputs: []gfInput{{"sender_ok", "sender_ok", "bool"}, {"parse_ok", "parse_ok", "bool"}, {"isFound", "name_found", "bool"}, {"ctx.BlockHeight()", "h", "Z"},
+			{"whois.Expires", "expires", "Z"}, {"whois.Value != owner.String()", "not_owner", "bool"}, {"whois.Locked", "locked", "Z"},
+			{"bidFound", "bid_found", "bool"}, {"price_ok", "price_ok", "bool"}, {"ok_pay", "ok_pay", "bool"}},
+		ReadStmts: []string{`name = strings.ToLower(name)`, `owner, err := sdk.AccAddressFromBech32(sender) => err=sender_ok`, `n, tld, err := GetNameAndTLD(name) => err=parse_ok`,
+			`whois, isFound := k.GetNames(ctx, n, tld)`, `bid, bidFound := k.GetBids(ctx, fmt.Sprintf("%s%s", bidder, name))`,
+			`price, err := sdk.ParseCoinsNormalized(bid.Price) => err=price_ok`},
+		Ignore: append([]string{`^whois\.Data = "\{\}"$`, `^ctx\.EventManager\(\)\.EmitEvent\(`}, gfLogging...),
+		Effects: []gfEffect{{Match: "k.bankKeeper.SendCoinsFromModuleToAccount", Tag: "bid-to-signer", Fallible: "ok_pay"}, {Match: "k.RemoveBids", Tag: "remove-bid"},
+			{Match: "whois.Value", Tag: "owner-becomes-bidder"}, {Match: "k.SetNames", Tag: "set-name"}}},
+	{Group: "gornsown", Pkg: "x/rns/keeper", Recv: "Keeper", Name: "TransferName", Coq: "gen_TransferName",
+		Inputs: []gfInput{{"sender_ok", "sender_ok", "bool"}, {"parse_ok", "parse_ok", "bool"}, {"isFound", "name_found", "bool"}, {"ctx.BlockHeight()", "h", "Z"},
+			{"whois.Expires", "expires", "Z"}, {"admin != sender.String()", "not_owner", "bool"}, {"whois.Locked", "locked", "Z"}},
+		ReadStmts: []string{`name = strings.ToLower(name)`, `sender, err := sdk.AccAddressFromBech32(creator) => err=sender_ok`, `name, tld, err := GetNameAndTLD(name) => err=parse_ok`,
+			`whois, isFound := k.GetNames(ctx, name, tld)`, `admin := whois.Value`},
+		Ignore: append([]string{`^whois\.Data = "\{\}"$`, `^ctx\.EventManager\(\)\.EmitEvent\(`}, gfLogging...),
+		Effects: []gfEffect{{Match: "whois.Value", Tag: "owner-becomes-receiver"}, {Match: "k.SetNames", Tag: "set-name"}}},
+	// ---- x/filetree/keeper: the authorisation skeleton of every handler (C10).  Strings are opaque: the events say what is written
+	{Group: "gofiletree", Pkg: "x/filetree/keeper", Recv: "msgServer", Name: "DeleteFile", Coq: "gen_DeleteFile",
+		Inputs: []gfInput{{"found", "found", "bool"}, {"isOwner", "is_owner", "bool"}},
+		ReadStmts: []string{`ctx := sdk.UnwrapSDKContext(goCtx)`, `ownerAddress := MakeOwnerAddress(msg.HashPath, msg.Account)`, `file, found := k.GetFiles(ctx, msg.HashPath, ownerAddress)`, `isOwner := IsOwner(file, msg.Creator)`},
+		Ignore: append([]string{`^ctx\.EventManager\(\)\.EmitEvent\(`}, gfLogging...),
+		Effects: []gfEffect{{Match: "k.RemoveFiles", Tag: "remove-entry"}}},
+	{Group: "gofiletree", Pkg: "x/filetree/keeper", Recv: "msgServer", Name: "ChangeOwner", Coq: "gen_ChangeOwner",
+		Inputs: []gfInput{{"found", "found", "bool"}, {"isOwner", "is_owner", "bool"}, {"fnd", "target_exists", "bool"}},
+		ReadStmts: []string{`ctx := sdk.UnwrapSDKContext(goCtx)`, `currentOwner := MakeOwnerAddress(msg.Address, msg.FileOwner)`, `file, found := k.GetFiles(ctx, msg.Address, currentOwner)`,
+			`isOwner := IsOwner(file, msg.Creator)`, `newOwner := MakeOwnerAddress(msg.Address, msg.NewOwner)`, `_, fnd := k.GetFiles(ctx, msg.Address, newOwner)`},
+		Ignore: append([]string{`^ctx\.EventManager\(\)\.EmitEvent\(`}, gfLogging...),
+		Effects: []gfEffect{{Match: "file.Owner", Tag: "owner-becomes-new-owner"}, {Match: "k.SetFiles", Tag: "set-entry"}, {Match: "k.RemoveFiles", Tag: "remove-old-entry"}}},
+	{Group: "gofiletree", Pkg: "x/filetree/keeper", Recv: "msgServer", Name: "PostFile", Coq: "gen_FtPostFile",
+		Inputs: []gfInput{{"found", "parent_found", "bool"}, {"hasEdit", "has_edit", "bool"}, {"access_ok", "access_ok", "bool"}},
+		ReadStmts: []string{`ctx := sdk.UnwrapSDKContext(goCtx)`, `parentOwnerString := MakeOwnerAddress(msg.HashParent, msg.Account)`, `parentFile, found := k.GetFiles(ctx, msg.HashParent, parentOwnerString)`,
+			`hasEdit, err := HasEditAccess(parentFile, msg.Creator) => err=access_ok`, `fullMerklePath := types.AddToMerkle(msg.HashParent, msg.HashChild)`, `owner := MakeOwnerAddress(fullMerklePath, msg.Account)`},
+		Ignore: append([]string{`^file := types\.Files\{`, `^ctx\.EventManager\(\)\.EmitEvent\(`}, gfLogging...),
+		Effects: []gfEffect{{Match: "k.SetFiles", Tag: "set-entry-under-parent"}}},
+	{Group: "gofiletree", Pkg: "x/filetree/keeper", Recv: "msgServer", Name: "AddViewers", Coq: "gen_AddViewers",
+		Inputs: []gfInput{{"found", "found", "bool"}, {"isOwner", "is_owner", "bool"}, {"parse_ok", "parse_ok", "bool"}, {"marshal_ok", "marshal_ok", "bool"}},
+		ReadStmts: []string{`ctx := sdk.UnwrapSDKContext(goCtx)`, `file, found := k.GetFiles(ctx, msg.Address, msg.FileOwner)`, `isOwner := IsOwner(file, msg.Creator)`, `pvacc := file.ViewingAccess`, `jvacc := make(map[string]string)`, `err := json.Unmarshal([]byte(pvacc), &jvacc) => err=parse_ok`, `ids := strings.Split(msg.ViewerIds, ",")`, `keys := strings.Split(msg.ViewerKeys, ",")`, `vaccbytes, err := json.Marshal(jvacc) => err=marshal_ok`, `newviewers := string(vaccbytes)`},
+		Ignore: append([]string{`^ctx\.EventManager\(\)\.EmitEvent\(`}, gfLogging...),
+		StmtEvents: []gfEffect{{Match: "for i, v := range ids", Tag: "merge-ids-into-list"}},
+		Effects: []gfEffect{{Match: "file.ViewingAccess", Tag: "set-list"}, {Match: "k.SetFiles", Tag: "set-file"}}},
+	{Group: "gofiletree", Pkg: "x/filetree/keeper", Recv: "msgServer", Name: "AddEditors", Coq: "gen_AddEditors",
+		Inputs: []gfInput{{"found", "found", "bool"}, {"isOwner", "is_owner", "bool"}, {"parse_ok", "parse_ok", "bool"}, {"marshal_ok", "marshal_ok", "bool"}},
+		ReadStmts: []string{`ctx := sdk.UnwrapSDKContext(goCtx)`, `file, found := k.GetFiles(ctx, msg.Address, msg.FileOwner)`, `isOwner := IsOwner(file, msg.Creator)`, `peacc := file.EditAccess`, `jeacc := make(map[string]string)`, `err := json.Unmarshal([]byte(peacc), &jeacc) => err=parse_ok`, `ids := strings.Split(msg.EditorIds, ",")`, `keys := strings.Split(msg.EditorKeys, ",")`, `eaccbytes, err := json.Marshal(jeacc) => err=marshal_ok`, `newEditors := string(eaccbytes)`},
+		Ignore: append([]string{`^ctx\.EventManager\(\)\.EmitEvent\(`}, gfLogging...),
+		StmtEvents: []gfEffect{{Match: "for i, v := range ids", Tag: "merge-ids-into-list"}},
+		Effects: []gfEffect{{Match: "file.EditAccess", Tag: "set-list"}, {Match: "k.SetFiles", Tag: "set-file"}}},
+	{Group: "gofiletree", Pkg: "x/filetree/keeper", Recv: "msgServer", Name: "RemoveViewers", Coq: "gen_RemoveViewers",
+		Inputs: []gfInput{{"found", "found", "bool"}, {"isOwner", "is_owner", "bool"}, {"parse_ok", "parse_ok", "bool"}, {"marshal_ok", "marshal_ok", "bool"}},
+		ReadStmts: []string{`ctx := sdk.UnwrapSDKContext(goCtx)`, `file, found := k.GetFiles(ctx, msg.Address, msg.FileOwner)`, `isOwner := IsOwner(file, msg.Creator)`, `pvacc := file.ViewingAccess`, `jvacc := make(map[string]string)`, `err := json.Unmarshal([]byte(pvacc), &jvacc) => err=parse_ok`, `ids := strings.Split(msg.ViewerIds, ",")`, `vaccbytes, err := json.Marshal(jvacc) => err=marshal_ok`, `newviewers := string(vaccbytes)`},
+		Ignore: append([]string{`^ctx\.EventManager\(\)\.EmitEvent\(`}, gfLogging...),
+		StmtEvents: []gfEffect{{Match: "for _, v := range ids", Tag: "delete-ids-from-list"}},
+		Effects: []gfEffect{{Match: "file.ViewingAccess", Tag: "set-list"}, {Match: "k.SetFiles", Tag: "set-file"}}},
+	{Group: "gofiletree", Pkg: "x/filetree/keeper", Recv: "msgServer", Name: "RemoveEditors", Coq: "gen_RemoveEditors",
+		Inputs: []gfInput{{"found", "found", "bool"}, {"isOwner", "is_owner", "bool"}, {"parse_ok", "parse_ok", "bool"}, {"marshal_ok", "marshal_ok", "bool"}},
+		ReadStmts: []string{`ctx := sdk.UnwrapSDKContext(goCtx)`, `file, found := k.GetFiles(ctx, msg.Address, msg.FileOwner)`, `isOwner := IsOwner(file, msg.Creator)`, `peacc := file.EditAccess`, `jeacc := make(map[string]string)`, `err := json.Unmarshal([]byte(peacc), &jeacc) => err=parse_ok`, `ids := strings.Split(msg.EditorIds, ",")`, `eaccbytes, err := json.Marshal(jeacc) => err=marshal_ok`, `newEditors := string(eaccbytes)`},
+		Ignore: append([]string{`^ctx\.EventManager\(\)\.EmitEvent\(`}, gfLogging...),
+		StmtEvents: []gfEffect{{Match: "for _, v := range ids", Tag: "delete-ids-from-list"}},
+		Effects: []gfEffect{{Match: "file.EditAccess", Tag: "set-list"}, {Match: "k.SetFiles", Tag: "set-file"}}},
+	{Group: "gofiletree", Pkg: "x/filetree/keeper", Recv: "msgServer", Name: "ResetViewers", Coq: "gen_ResetViewers",
+		Inputs: []gfInput{{"found", "found", "bool"}, {"isOwner", "is_owner", "bool"}, {"parse_ok", "parse_ok", "bool"}, {"marshal_ok", "marshal_ok", "bool"}},
+		ReadStmts: []string{`ctx := sdk.UnwrapSDKContext(goCtx)`, `file, found := k.GetFiles(ctx, msg.Address, msg.FileOwner)`, `isOwner := IsOwner(file, msg.Creator)`, `pvacc := file.ViewingAccess`, `jvacc := make(map[string]string)`, `err := json.Unmarshal([]byte(pvacc), &jvacc) => err=parse_ok`, `ownerViewerAddress := MakeViewerAddress(file.TrackingNumber, msg.Creator)`, `ownerKey := jvacc[ownerViewerAddress]`, `resetViewers := make(map[string]string)`, `vaccbytes, err := json.Marshal(resetViewers) => err=marshal_ok`, `newViewers := string(vaccbytes)`},
+		Ignore: append([]string{`^ctx\.EventManager\(\)\.EmitEvent\(`}, gfLogging...),
+		StmtEvents: []gfEffect{{Match: "resetViewers[ownerViewerAddress] = ownerKey", Tag: "list-becomes-the-signers-own-entry"}},
+		Effects: []gfEffect{{Match: "file.ViewingAccess", Tag: "set-list"}, {Match: "k.SetFiles", Tag: "set-file"}}},
+	{Group: "gofiletree", Pkg: "x/filetree/keeper", Recv: "msgServer", Name: "ResetEditors", Coq: "gen_ResetEditors",
+		Inputs: []gfInput{{"found", "found", "bool"}, {"isOwner", "is_owner", "bool"}, {"parse_ok", "parse_ok", "bool"}, {"marshal_ok", "marshal_ok", "bool"}},
+		ReadStmts: []string{`ctx := sdk.UnwrapSDKContext(goCtx)`, `file, found := k.GetFiles(ctx, msg.Address, msg.FileOwner)`, `isOwner := IsOwner(file, msg.Creator)`, `peacc := file.EditAccess`, `jeacc := make(map[string]string)`, `err := json.Unmarshal([]byte(peacc), &jeacc) => err=parse_ok`, `ownerEditorAddress := MakeEditorAddress(file.TrackingNumber, msg.Creator)`, `ownerKey := jeacc[ownerEditorAddress]`, `resetEditors := make(map[string]string)`, `eaccbytes, err := json.Marshal(resetEditors) => err=marshal_ok`, `newEditors := string(eaccbytes)`},
+		Ignore: append([]string{`^ctx\.EventManager\(\)\.EmitEvent\(`}, gfLogging...),
+		StmtEvents: []gfEffect{{Match: "resetEditors[ownerEditorAddress] = ownerKey", Tag: "list-becomes-the-signers-own-entry"}},
+		Effects: []gfEffect{{Match: "file.EditAccess", Tag: "set-list"}, {Match: "k.SetFiles", Tag: "set-file"}}},
 	// ---- x/jklmint: the emission schedule and the split (C13, C05)
 	{Group: "gomint", Pkg: "x/jklmint/utils", Name: "int64ToDec", Coq: "gen_int64ToDec", Inputs: []gfInput{{"i", "i", "Z"}}},
 	{Group: "gomint", Pkg: "x/jklmint/utils", Name: "GetMintForBlock", Coq: "gen_GetMintForBlock",
@@ -456,6 +597,11 @@ func (t *gfTr) expr(e ast.Expr) ([]gfBind, string, string, error) {
 					k = "bool"
 				}
 				return nil, n, k, nil
+			}
+		}
+		if v, ok := o.(*types.Var); ok && v.Pkg() != nil && v.Parent() == v.Pkg().Scope() {
+			if strings.HasSuffix(v.Type().String(), "errors.Error") || gfKind(v.Type()) == "err" {
+				return nil, "false", "bool", nil // a package-level error value: not nil
 			}
 		}
 		return nil, "", "", t.errf(e, "identifier %s is neither a translated variable nor a configured read", x.Name)
@@ -821,6 +967,40 @@ func (t *gfTr) callTranslated(c *ast.CallExpr, fn *types.Func, cfg *gfFunc) ([]g
 	return binds, tmp, ty, nil
 }
 
+// callEffectful: a call of another translated function that has effects.  Its events are appended to the caller's,
+// its (single) result is bound to a fresh name.  Returns the Gallina prefix and the name of the result.
+func (t *gfTr) callEffectful(c *ast.CallExpr) (string, string, bool, error) {
+	fn, _ := t.calleeObj(c).(*types.Func)
+	if fn == nil {
+		return "", "", false, nil
+	}
+	cfg, ok := t.byObj[fn]
+	if !ok || (len(cfg.Effects) == 0 && len(cfg.StmtEvents) == 0) || t.effectForCall(c) != nil {
+		return "", "", false, nil
+	}
+	if !t.events {
+		return "", "", true, t.errf(c, "call of the effectful %s from a function without effects", cfg.Name)
+	}
+	saved := cfg.Effects
+	cfg.Effects = nil // callTranslated refuses effectful callees inside expressions; here the events are threaded
+	se := cfg.StmtEvents
+	cfg.StmtEvents = nil
+	binds, tmp, _, err := t.callTranslated(c, fn, cfg)
+	cfg.Effects, cfg.StmtEvents = saved, se
+	if err != nil {
+		return "", "", true, err
+	}
+	res := t.fresh()
+	nres := fn.Type().(*types.Signature).Results().Len()
+	pre := gfWrap(binds, "")
+	if nres == 0 {
+		pre += "let evs := evs ++ " + tmp + " in\n"
+		return pre, "tt", true, nil
+	}
+	pre += "let '(" + res + "_evs, " + res + ") := " + tmp + " in\nlet evs := evs ++ " + res + "_evs in\n"
+	return pre, res, true, nil
+}
+
 func (t *gfTr) matchAny(pats []string, s string) bool {
 	for _, p := range pats {
 		if regexp.MustCompile(p).MatchString(s) {
@@ -974,6 +1154,24 @@ func (t *gfTr) seq(stmts []ast.Stmt) (string, error) {
 		vals := []string{}
 		for i, r := range x.Results {
 			if len(t.resKeep) == len(x.Results) && !t.resKeep[i] {
+				if t.cfg.RespField != "" && i == 0 {
+					val := "false"
+					if u, ok := r.(*ast.UnaryExpr); ok && u.Op == token.AND {
+						if cl, ok := u.X.(*ast.CompositeLit); ok {
+							for _, el := range cl.Elts {
+								if kv, ok := el.(*ast.KeyValueExpr); ok && t.src(kv.Key) == t.cfg.RespField {
+									b, v, _, err := t.expr(kv.Value)
+									if err != nil {
+										return "", err
+									}
+									binds = append(binds, b...)
+									val = v
+								}
+							}
+						}
+					}
+					vals = append(vals, val)
+				}
 				continue
 			}
 			b, v, _, err := t.expr(r)
@@ -1042,6 +1240,13 @@ func (t *gfTr) seq(stmts []ast.Stmt) (string, error) {
 		return "let " + v + " := " + op + " " + v + " 1 in\n" + r, err
 	case *ast.ExprStmt:
 		if c, ok := x.X.(*ast.CallExpr); ok {
+			if pre, _, ok, err := t.callEffectful(c); ok || err != nil {
+				if err != nil {
+					return "", err
+				}
+				r, err := t.seq(rest)
+				return pre + r, err
+			}
 			if ef := t.effectForCall(c); ef != nil && ef.Fallible == "" {
 				_, ev, err := t.emitEvent(ef, "", s)
 				if err != nil {
@@ -1359,6 +1564,17 @@ func (t *gfTr) assign(x *ast.AssignStmt, rest []ast.Stmt) (string, error) {
 			return ev + r, err
 		}
 	}
+	// err := translatedFunctionWithEffects(...)
+	if c, ok := x.Rhs[0].(*ast.CallExpr); ok {
+		if pre, res, ok, err := t.callEffectful(c); ok || err != nil {
+			if err != nil {
+				return "", err
+			}
+			name := t.nameOf(o)
+			r, err := t.seq(rest)
+			return pre + "let " + name + " := " + res + " in\n" + r, err
+		}
+	}
 	// err := fallibleEffect(...)
 	if c, ok := x.Rhs[0].(*ast.CallExpr); ok {
 		if ef := t.effectForCall(c); ef != nil && ef.Fallible != "" {
@@ -1582,6 +1798,9 @@ func genGoFuncs(c *Ctx, group string) (string, string, error) {
 			}
 			stmts, t.unitKind = found, kind
 			t.resTy = nil
+		}
+		if f.RespField != "" {
+			t.resTy = append([]string{"bool"}, t.resTy...)
 		}
 		body, err := t.seq(stmts)
 		if err != nil {
